@@ -36,13 +36,18 @@
                       decidable domain cycle_hypsb (the first written form is already in normal
                       form: every header item, every data token is stable under one read; the
                       STRT/STOP/STEP refresh is not triggered).
-   NOT proved (covered by the correspondence runs of harness/props/c11.py only): the second cycle
-   OUTSIDE that domain, where the second text differs from the first while the content is the same
-   numerically (C11_second_text_refuted: STRT printed "1.00000", next time "1.0"), and the closure
-   of the domain (that the second written form of an arbitrary file is in it).  See the comment of
-   THE SECOND CYCLE for the list.  F15/F25 (a ~Curves unit starting with '.', a mnemonic ending
-   with '.') and the nested-bracket unit (lasio fix b7a2e2d, found while proving the second cycle)
-   were places where lasio itself drifted. *)
+                      C11_second_cycle_content_partial: outside that domain (typically: the first
+                      write refreshed STRT/STOP/STEP, "1670.00000" becomes "1670.0"), under the
+                      weaker decidable domain cycle_whypsb and the premise that the second written
+                      form satisfies the C01/C03 domain, the object read after the second cycle has
+                      the data of the first re-read and header items equal up to numeric equality
+                      (content_okb, decidable per file).
+   NOT proved (covered by the correspondence runs of harness/props/c11.py only): the closure of the
+   C01/C03 domain under one cycle (a premise above), the numeric oracle facts num(str(x)) ~ x for
+   all values (checked per file), files where the second write refreshes STRT/STOP/STEP again.  See
+   the comment of THE SECOND CYCLE for the list.  F15/F25 (a ~Curves unit starting with '.', a
+   mnemonic ending with '.') and the nested-bracket unit (lasio fix b7a2e2d, found while proving the
+   second cycle) were places where lasio itself drifted. *)
 From Coq Require Import List NArith ZArith Bool Arith String.
 Import ListNotations.
 Require Import PyStr Regex NumLit Num Tables SectionParse DataRead Read TextWrap Writer
@@ -340,23 +345,35 @@ Print Assumptions C11_reread_fixed_point_partial.
                           respects-R premise is trivial —, F = one load/save cycle): for every k the
                           text after k cycles is the text of the first write.
 
-   WHAT IS STILL MISSING (named): the domain cycle_hypsb is the set of written forms that are
-   already in normal form.  Outside it the second text may differ from the first although the
-   CONTENT does not drift, and that case is NOT proved (correspondence runs only):
-     (a) the first write refreshed STRT/STOP/STEP (or a value was set as text): they are printed
-         with the index format ("1.00000"), read back as numbers and printed through str() the
-         next time ("1.0") — C11_second_text_refuted is such a file: the second text differs,
-         the third equals the second, the second written form IS in the domain (so the theorem
-         applies from the second text on); replayed on lasio: same behaviour, content equal;
-     (b) a data value that the format rounds onto NULL (printed "-999.25000", read back NaN,
-         printed "-999.25");
-     (c) a unit in brackets "(M)", mixed-case mnemonics under mnemonic_case upper/lower, unstripped
-         ~Other lines — these change on the FIRST read only (strip_brackets is idempotent since
-         lasio fix b7a2e2d — before it a unit in three pairs of brackets lost one pair per cycle,
-         a genuine drift found while proving this theorem);
-     (d) closure: that the second written form of an arbitrary file is in the domain (it would
-         need conformance of the re-read items and the numeric oracles num(str(x)) ~ x). *)
-Require Import JunkProofs SecondCycleRead SecondCycleItems SecondCycleHeader SecondCycleData SecondCycle WriteShow.
+     C11_second_cycle_content_partial, C11_content_okb_ok   OUTSIDE that domain, at the level of
+                          CONTENT (statement further down): when only mnemonic and unit of every
+                          item survive one read (cycle_whypsb) the second write succeeds, prints the
+                          same data lines, and the object read from its text has the data and the
+                          ~Other text of l and the header items E (E a) where those of l are E a;
+                          E (E a) ~ E a (float values compared with the numeq oracle) is a decidable
+                          check on the items (content_okb).  This is the common case: the first
+                          write refreshed STRT/STOP/STEP and printed "1670.00000", the second prints
+                          "1670.0" (72 of 96 chains of the quick tier; C11_second_text_refuted,
+                          C11_ex_content).
+
+   WHAT IS STILL MISSING (named):
+     (a) closure of the C01/C03 domain: that the SECOND written form satisfies file_hypsb is a
+         premise of C11_second_cycle_content_partial (conformance of the value texts str(num(.))
+         prints; decidable on the concrete second form, proved by computation in C11_ex_content),
+         and E (E a) ~ E a is checked per file (content_okb), not proved for all items — it would
+         need the numeric oracle facts num(str(x)) ~ x for every value;
+     (b) files where the second write DOES refresh STRT/STOP/STEP (need_of = Some true on the
+         object read back: the STOP value read back differs from the last index value read back),
+         a data value that the format rounds onto NULL (printed "-999.25000", read back NaN, printed
+         "-999.25"), a unit in brackets "(M)", mixed-case mnemonics under mnemonic_case upper/lower,
+         unstripped ~Other lines (these three change on the FIRST read only; strip_brackets is
+         idempotent since lasio fix b7a2e2d — before it a unit in three pairs of brackets lost one
+         pair per cycle, a genuine drift found while proving C11_second_header): outside both
+         domains, correspondence runs only;
+     (c) harness/props/c11.py evaluates file_hypsb && cycle_hypsb on every chain of the run
+         (Proofs/SecondCycleCheck.v) and checks on the real lasio that each chain in the domain
+         writes the same text twice. *)
+Require Import JunkProofs SecondCycleRead SecondCycleItems SecondCycleHeader SecondCycleData SecondCycle SecondCycleContent WriteShow.
 
 Theorem C11_read_canonical : forall fhex fstr numeq ro text l,
   read fhex fstr numeq ro text = ROk l -> canon_las l.
@@ -376,10 +393,9 @@ Theorem C11_second_header :
   l_well l = mksect (reb fstr ro KWell (s_items (l_well (hs_las hs)))) (trc (o_mcase ro)) ->
   l_curves l = mksect (reb fstr ro KCurves (s_items (l_curves (hs_las hs)))) (trc (o_mcase ro)) ->
   l_params l = mksect (reb fstr ro KParameter (s_items (l_params (hs_las hs)))) (trc (o_mcase ro)) ->
-  Forall (stable_item fstr fzero ro KVersion false) (hs_vers_items hs) ->
-  Forall (stable_item fstr fzero ro KWell true) (s_items (l_well (hs_las hs))) ->
-  Forall (stable_item fstr fzero ro KCurves false) (s_items (l_curves (hs_las hs))) ->
-  Forall (stable_item fstr fzero ro KParameter true) (s_items (l_params (hs_las hs))) ->
+  Forall (wstable_item fstr ro KVersion) (hs_vers_items hs) ->
+  Forall (wstable_item fstr ro KWell) (s_items (l_well (hs_las hs))) ->
+  Forall (wstable_item fstr ro KCurves) (s_items (l_curves (hs_las hs))) ->
   forall wit vit,
   filter (in_class (o_mcase ro) k_wrap) (hs_vers_items hs) = [wit] ->
   (forall b, wrapo = Some b -> expected_item fstr KVersion (o_mcase ro) wit = wrap_item b) ->
@@ -392,6 +408,43 @@ Theorem C11_second_header :
   s_items (l_curves (hs_las hs)) = c0 :: crest ->
   i_unit sit = i_unit c0 -> i_unit pit = i_unit c0 -> i_unit eit = i_unit c0 ->
   forall ii, need_of numeq (mkmlas l ii) = Some false ->
+  exists vsw2 lv2 lw2 lc2 lp2,
+    write_sections fmtv fmt_diff fstr fzero numeq ver wrapo ifmt (mkmlas l ii) =
+    Some (mkhs (hs_wrap hs) (hs_version hs) vsw2 lv2 lw2 lc2 lp2 (norm_las fzero l)) /\
+    map (pm fstr) vsw2 = map (pm fstr) (reb fstr ro KVersion (hs_vers_items hs)) /\
+    section_lines fstr (hs_version hs) (s2l "Version") vsw2 = Some lv2 /\
+    section_lines fstr (hs_version hs) (s2l "Well") (map (post fzero true) (reb fstr ro KWell (s_items (l_well (hs_las hs))))) = Some lw2 /\
+    section_lines fstr (hs_version hs) (s2l "Curves") (reb fstr ro KCurves (s_items (l_curves (hs_las hs)))) = Some lc2 /\
+    section_lines fstr (hs_version hs) (s2l "Parameter") (map (post fzero true) (reb fstr ro KParameter (s_items (l_params (hs_las hs))))) = Some lp2.
+Proof. exact second_write_sections_gen. Qed.
+
+Theorem C11_second_header_same_lines :
+  forall fmtv fmt_diff (fmt_pi : list N -> list N) fstr fzero numeq ro ver wrapo ifmt m hs,
+  write_sections fmtv fmt_diff fstr fzero numeq ver wrapo ifmt m = Some hs ->
+  forall l,
+  l_version l = mksect (reb fstr ro KVersion (hs_vers_items hs)) (trc (o_mcase ro)) ->
+  l_well l = mksect (reb fstr ro KWell (s_items (l_well (hs_las hs)))) (trc (o_mcase ro)) ->
+  l_curves l = mksect (reb fstr ro KCurves (s_items (l_curves (hs_las hs)))) (trc (o_mcase ro)) ->
+  l_params l = mksect (reb fstr ro KParameter (s_items (l_params (hs_las hs)))) (trc (o_mcase ro)) ->
+  Forall (wstable_item fstr ro KVersion) (hs_vers_items hs) ->
+  Forall (wstable_item fstr ro KWell) (s_items (l_well (hs_las hs))) ->
+  Forall (wstable_item fstr ro KCurves) (s_items (l_curves (hs_las hs))) ->
+  forall wit vit,
+  filter (in_class (o_mcase ro) k_wrap) (hs_vers_items hs) = [wit] ->
+  (forall b, wrapo = Some b -> expected_item fstr KVersion (o_mcase ro) wit = wrap_item b) ->
+  filter (in_class (o_mcase ro) k_vers) (hs_vers_items hs) = [vit] ->
+  std_version (hs_version hs) -> fstr_vers_ok fstr -> dlm_ok fstr (o_mcase ro) hs ->
+  forall sit pit eit c0 crest,
+  filter (in_class (o_mcase ro) k_strt) (s_items (l_well (hs_las hs))) = [sit] ->
+  filter (in_class (o_mcase ro) k_stop) (s_items (l_well (hs_las hs))) = [pit] ->
+  filter (in_class (o_mcase ro) k_step) (s_items (l_well (hs_las hs))) = [eit] ->
+  s_items (l_curves (hs_las hs)) = c0 :: crest ->
+  i_unit sit = i_unit c0 -> i_unit pit = i_unit c0 -> i_unit eit = i_unit c0 ->
+  forall ii, need_of numeq (mkmlas l ii) = Some false ->
+  Forall (stable_item fstr fzero ro KVersion false) (hs_vers_items hs) ->
+  Forall (stable_item fstr fzero ro KWell true) (s_items (l_well (hs_las hs))) ->
+  Forall (stable_item fstr fzero ro KCurves false) (s_items (l_curves (hs_las hs))) ->
+  Forall (stable_item fstr fzero ro KParameter true) (s_items (l_params (hs_las hs))) ->
   exists vsw2,
     write_sections fmtv fmt_diff fstr fzero numeq ver wrapo ifmt (mkmlas l ii) =
     Some (mkhs (hs_wrap hs) (hs_version hs) vsw2 (hs_lv hs) (hs_lw hs) (hs_lc hs) (hs_lp hs) (norm_las fzero l)).
@@ -496,6 +549,45 @@ Proof.
   - reflexivity.
   - exact Hk.
 Qed.
+
+(* ---- the second cycle at the level of CONTENT (the second text may differ) -------------------------
+   cycle_whypsb: as cycle_hypsb, but only mnemonic and unit of every item must survive one read
+   (the NULL item must be fully stable: its text is printed into the data).  The second write
+   then succeeds, prints the same data lines, and reading its text gives l2 with the data and the
+   ~Other text of l and the header items  E (E a)  where those of l are  E a  (E1, E2; a: items of
+   the first written form).  `_partial`: the C01/C03 domain hypothesis on the SECOND written form
+   (file_hypsb hs2) is a premise, not derived from the first. *)
+Theorem C11_second_cycle_content_partial :
+  forall fmtv fmt_diff fmt_pi fstr fzero numeq fhex ro o m text m' hs dl rts nt l,
+  write fmtv fmt_diff fmt_pi fstr fzero numeq o m = WOk text m' ->
+  write_sections fmtv fmt_diff fstr fzero numeq (wo_version o) (wo_wrap o) (col_fmt o 0%nat) m = Some hs ->
+  dsh_of fmtv fmt_pi fstr o hs = Some dl ->
+  las_null_text fstr (hs_las hs) = Some nt ->
+  opt_all (map (row_text fmtv fmt_pi o (Some nt) 0%nat) (las_rows (hs_las hs))) = Some rts ->
+  file_hypsb fmtv fmt_pi fstr fhex ro o hs nt = true -> o_ignore_data ro = false ->
+  cycle_whypsb fmtv fstr fzero numeq fhex ro o hs nt = true ->
+  read fhex fstr numeq ro text = ROk l ->
+  (forall hs2, write_sections fmtv fmt_diff fstr fzero numeq (wo_version o) (wo_wrap o) (col_fmt o 0%nat)
+                 (mkmlas l (reread_index l)) = Some hs2 ->
+               file_hypsb fmtv fmt_pi fstr fhex ro o hs2 nt = true) ->
+  exists text2 l2,
+    write fmtv fmt_diff fmt_pi fstr fzero numeq o (mkmlas l (reread_index l))
+      = WOk text2 (mkmlas (norm_las fzero l) (reread_index l)) /\
+    read fhex fstr numeq ro text2 = ROk l2 /\
+    map meta (s_items (l_version l2)) = map (fun a => meta (E2 fstr fzero ro KVersion false a)) (hs_vers_items hs) /\
+    map meta (s_items (l_well l2)) = map (fun a => meta (E2 fstr fzero ro KWell true a)) (s_items (l_well (hs_las hs))) /\
+    map meta (s_items (l_curves l2)) = map (fun a => meta (E2 fstr fzero ro KCurves false a)) (s_items (l_curves (hs_las hs))) /\
+    map meta (s_items (l_params l2)) = map (fun a => meta (E2 fstr fzero ro KParameter true a)) (s_items (l_params (hs_las hs))) /\
+    l_data l2 = l_data l /\ l_other l2 = l_other l /\ l_custom l2 = [].
+Proof. exact second_cycle_content. Qed.
+
+(* E (E a) is E a up to numeric equality of float values (numeq: float(x) == float(y)): decidable
+   item by item; with header_read_back (the items of l are E a) this is "the same header items
+   (numeric values compared numerically) as the first re-read" *)
+Theorem C11_content_okb_ok : forall fstr fzero numeq ro k std A,
+  forallb (item_contentb fstr fzero numeq ro k std) A = true ->
+  Forall2 (meta_equiv numeq) (map (fun a => meta (E2 fstr fzero ro k std a)) A) (map (fun a => meta (E1 fstr ro k a)) A).
+Proof. exact section_content_ok. Qed.
 
 (* reread_index is what the pipeline interpreter of the correspondence gives a LASFile after read *)
 Example C11_reread_index_is_pipeline : forall l, reread_index l = index_initial_of l.
@@ -604,9 +696,54 @@ Example C11_second_text_refuted :
   end.
 Proof. vm_compute. repeat split; try reflexivity. discriminate. Qed.
 
+(* the same file r_m is in the domain of the content-level theorem: its conclusion, instantiated *)
+Definition r_text : list N := match write r_fmtv t_fmt_diff t_fmt_pi r_fstr t_fzero r_numeq r_o r_m with WOk t _ => t | WErr _ => [] end.
+Definition r_hs : hdr_sections := match r_wsec r_m with Some hs => hs | None => mkhs false V20 [] [] [] [] [] empty_las end.
+Definition r_l1 : las := match read t_fhex r_fstr r_numeq t_ro r_text with ROk l => l | RErr _ => empty_las end.
+
+Example C11_ex_content_domain :
+  cycle_whypsb r_fmtv r_fstr t_fzero r_numeq t_fhex t_ro r_o r_hs (s2l "-999.25") = true /\
+  content_okb r_fstr t_fzero r_numeq t_ro r_hs = true /\
+  cycle_hypsb r_fmtv r_fstr t_fzero r_numeq t_fhex t_ro r_o r_hs (s2l "-999.25") = false.
+Proof. repeat split; vm_compute; reflexivity. Qed.
+
+Example C11_ex_content :
+  exists text2 l2,
+    write r_fmtv t_fmt_diff t_fmt_pi r_fstr t_fzero r_numeq r_o (mkmlas r_l1 (reread_index r_l1))
+      = WOk text2 (mkmlas (norm_las t_fzero r_l1) (reread_index r_l1)) /\
+    read t_fhex r_fstr r_numeq t_ro text2 = ROk l2 /\
+    Forall2 (meta_equiv r_numeq) (map meta (s_items (l_well l2))) (map meta (s_items (l_well r_l1))) /\
+    l_data l2 = l_data r_l1.
+Proof.
+  assert (Hw : exists m', write r_fmtv t_fmt_diff t_fmt_pi r_fstr t_fzero r_numeq r_o r_m = WOk r_text m')
+    by (eexists; vm_compute; reflexivity).
+  destruct Hw as (m' & Hw).
+  assert (Hs : write_sections r_fmtv t_fmt_diff r_fstr t_fzero r_numeq (wo_version r_o) (wo_wrap r_o) (col_fmt r_o 0%nat) r_m = Some r_hs)
+    by (vm_compute; reflexivity).
+  assert (Hd : exists dl rts, dsh_of r_fmtv t_fmt_pi r_fstr r_o r_hs = Some dl /\
+             opt_all (map (row_text r_fmtv t_fmt_pi r_o (Some (s2l "-999.25")) 0%nat) (las_rows (hs_las r_hs))) = Some rts)
+    by (eexists; eexists; split; vm_compute; reflexivity).
+  destruct Hd as (dl & rts & Hdl & Hrts).
+  destruct (C11_second_cycle_content_partial r_fmtv t_fmt_diff t_fmt_pi r_fstr t_fzero r_numeq t_fhex t_ro r_o r_m r_text m'
+              r_hs dl rts (s2l "-999.25") r_l1 Hw Hs Hdl) as (text2 & l2 & H1 & H2 & _ & HW & _ & _ & HD & _).
+  - vm_compute; reflexivity.
+  - exact Hrts.
+  - vm_compute; reflexivity.
+  - reflexivity.
+  - vm_compute; reflexivity.
+  - vm_compute; reflexivity.
+  - intros hs2 H. vm_compute in H. injection H as <-. vm_compute. reflexivity.
+  - exists text2, l2. split; [exact H1|]. split; [exact H2|]. split; [|exact HD].
+    rewrite HW.
+    assert (E : map meta (s_items (l_well r_l1)) = map (fun a => meta (E1 r_fstr t_ro KWell a)) (s_items (l_well (hs_las r_hs))))
+      by (vm_compute; reflexivity).
+    rewrite E. apply C11_content_okb_ok. vm_compute. reflexivity.
+Qed.
+
 Print Assumptions C11_read_canonical.
 Print Assumptions C11_canonical_determined.
 Print Assumptions C11_second_header.
+Print Assumptions C11_second_header_same_lines.
 Print Assumptions C11_stable_itemb_ok.
 Print Assumptions C11_refresh_not_triggered.
 Print Assumptions C11_back_okb_of_Hfix.
@@ -616,3 +753,5 @@ Print Assumptions C11_second_cycle.
 Print Assumptions C11_cycle_fixed.
 Print Assumptions C11_cycles_same_text.
 Print Assumptions C11_cycles_iter.
+Print Assumptions C11_second_cycle_content_partial.
+Print Assumptions C11_content_okb_ok.
